@@ -60,7 +60,11 @@ RULE = ("model-compared histories (612 quick / 12 012 thorough): 1-3 owners x 1-
         "functions that build tuples, test truthiness and raise a user exception (`req`), owners whose truth value is False "
         "(__len__ 0 / __bool__ False), two distinct owners that compare EQUAL (value-based __eq__/__hash__; HEAD conflates them in "
         "Computed.parents: known finding C17/Computed/equal-owners-conflated), user exceptions of eight types incl. StopIteration, "
-        "AttributeError, TypeError and GeneratorExit, also raised while the Computed is being installed.  Targeted enumerator (thorough / on a break): all op sequences of length <= 4 (5) over "
+        "AttributeError, TypeError and GeneratorExit, also raised while the Computed is being installed.  ObservableList inputs (61 quick / "
+        "1 501 thorough histories): Computeds over sum / len / contents of two ObservableLists, directly, through a chain and behind a "
+        "branch; judged after `+=`, assignment of a new list, of the SAME list object, of the list read back or an equal copy; the "
+        "in-place methods (append ... slices) are observed only - HEAD compares the list by identity and serves a stale value after "
+        "them (cand/ key, reported).  Targeted enumerator (thorough / on a break): all op sequences of length <= 4 (5) over "
         "{set x 0|1, set y 0|1, read c0, read c1} on six shapes, with and without None results, and all writer action lists "
         "of length <= 3.  non-trivial = at least one computed re-evaluated after installation and at least one read served from "
         "cache; distinct = SHA1 of the history")
@@ -382,6 +386,137 @@ def _scale_cases(tier, broken=False):
     return cs
 
 
+# --- ObservableList inputs (oracle only): Computeds over len / sum / contents of lists, every way to change a list
+CAND_INPLACE = "cand/C17/Computed.__call__/in-place-list-change-compared-by-identity"   # HEAD finding (wave 11), observed
+_LST_INPLACE = ["append", "extend", "insert", "remove", "pop", "clear", "reverse", "setitem", "delitem", "setslice", "delslice"]
+
+
+def _lst_case(rng, inplace=True):
+    ops = []
+    kinds = ["iadd", "iadd", "new", "same", "copy", "setx", "read", "read", "read"] + (["inplace"] if inplace else [])
+    for _ in range(rng.randint(4, 16)):
+        k = rng.choice(kinds)
+        li = rng.randrange(2)
+        if k in ("iadd", "new"):
+            ops.append([k, li, [rng.randint(0, 5) for _ in range(rng.randint(0, 3))]])
+        elif k in ("same", "copy"):
+            ops.append([k, li])
+        elif k == "setx":
+            ops.append([k, rng.randint(0, 2)])
+        elif k == "inplace":
+            ops.append([k, li, rng.choice(_LST_INPLACE), rng.randint(0, 5)])
+        else:
+            ops.append(["read", rng.randrange(5)])
+    ops += [["read", j] for j in (3, 4, 2)]
+    return {"lst": True, "init": [[rng.randint(0, 4) for _ in range(rng.randint(0, 3))] for _ in range(2)], "ops": ops}
+
+
+def _lst_corner():
+    return [{"lst": True, "init": [[1, 2, 3], [4]], "ops": [["read", 3], ["iadd", 0, [4, 5]], ["read", 3], ["read", 0], ["iadd", 1, [1]],
+                                                           ["read", 2], ["read", 4], ["same", 0], ["read", 3], ["copy", 1], ["read", 2],
+                                                           ["new", 0, []], ["read", 3], ["iadd", 0, []], ["read", 0], ["setx", 0], ["iadd", 1, [9]],
+                                                           ["read", 4], ["setx", 1], ["read", 4]]}]
+
+
+def _run_lst(case):
+    """owner with two ObservableLists l0, l1 and an Observable x; c0 = sum(l0), c1 = len(l0) + x, c2 = tuple(l1),
+    c3 = c0 + c1 (chain), c4 = sum(l1) if x else 0.  Judged: after `+=`, assignment of a new list, of the SAME list object,
+    of the list read back / an equal copy, and assignments to x, every read equals a fresh evaluation.  In-place methods
+    are observed only (HEAD compares the list by identity: report), and everything after one of them in a history."""
+    from mesa.experimental.mesa_signals.mesa_signal import Computable, Computed, HasObservables, Observable
+    from mesa.experimental.mesa_signals.observable_collections import ObservableList
+
+    class L(HasObservables):
+        l0 = ObservableList()
+        l1 = ObservableList()
+        x = Observable()
+        c0 = Computable()
+        c1 = Computable()
+        c2 = Computable()
+        c3 = Computable()
+        c4 = Computable()
+
+    a = L()
+    sh = [list(case["init"][0]), list(case["init"][1])]
+    shx = [1]
+    a.l0, a.l1, a.x = list(sh[0]), list(sh[1]), 1
+    a.c0 = Computed(lambda: sum(a.l0))
+    a.c1 = Computed(lambda: len(a.l0) + a.x)
+    a.c2 = Computed(lambda: tuple(a.l1))
+    a.c3 = Computed(lambda: a.c0 + a.c1)
+    a.c4 = Computed(lambda: sum(a.l1) if a.x else 0)
+
+    def fresh(j):
+        return [sum(sh[0]), len(sh[0]) + shx[0], tuple(sh[1]), sum(sh[0]) + len(sh[0]) + shx[0], sum(sh[1]) if shx[0] else 0][j]
+
+    failures, obs, inplace_seen = [], [], False
+    for i, op in enumerate(case["ops"]):
+        k = op[0]
+        try:
+            if k == "read":
+                got, exp = getattr(a, f"c{op[1]}"), fresh(op[1])
+                if got != exp:
+                    failures.append({"key": CAND_INPLACE if inplace_seen else "C17/Computable/stale-value", "op": i,
+                                     "what": f"Computed over an ObservableList: read c{op[1]} = {got!r}; its function evaluated now gives {exp!r} "
+                                             f"(lists {sh}, x = {shx[0]}; history {case['ops'][:i + 1]})"})
+                obs.append([10])
+                continue
+            name = f"l{op[1]}" if k != "setx" else None
+            if k == "iadd":
+                lst = getattr(a, name)
+                lst += op[2]
+                setattr(a, name, lst)                # what `a.l += items` does: __iadd__ in place, then the attribute is assigned
+                sh[op[1]] += list(op[2])
+            elif k == "new":
+                setattr(a, name, list(op[2]))
+                sh[op[1]] = list(op[2])
+            elif k == "same":
+                setattr(a, name, getattr(a, name))   # o.l = o.l
+            elif k == "copy":
+                setattr(a, name, list(getattr(a, name)))
+            elif k == "setx":
+                a.x = op[1]
+                shx[0] = op[1]
+            elif k == "inplace":
+                inplace_seen = True
+                lst, m, v, py = getattr(a, name), op[2], op[3], sh[op[1]]
+                try:
+                    if m == "append":
+                        lst.append(v); py.append(v)
+                    elif m == "extend":
+                        lst.extend([v, v]); py.extend([v, v])
+                    elif m == "insert":
+                        lst.insert(0, v); py.insert(0, v)
+                    elif m == "remove":
+                        if v in py:
+                            lst.remove(v); py.remove(v)
+                    elif m == "pop":
+                        if py:
+                            lst.pop(); py.pop()
+                    elif m == "clear":
+                        lst.clear(); py.clear()
+                    elif m == "reverse":
+                        lst.reverse(); py.reverse()
+                    elif m == "setitem":
+                        if py:
+                            lst[0] = v; py[0] = v
+                    elif m == "delitem":
+                        if py:
+                            del lst[0]; del py[0]
+                    elif m == "setslice":
+                        lst[0:1] = [v, v]; py[0:1] = [v, v]
+                    elif m == "delslice":
+                        del lst[0:1]; del py[0:1]
+                finally:
+                    sh[op[1]] = list(getattr(a, name))       # whatever HEAD's list does is the truth for later reads
+            obs.append([11])
+        except Exception as e:  # noqa: BLE001
+            obs.append([-1, 99])
+            key = CAND_INPLACE if k == "inplace" else f"C17/list-{k}/unexpected-exception"
+            failures.append({"key": key, "op": i, "what": f"{op} raised {type(e).__name__}: {e}"})
+    return {"obs": obs, "failures": failures, "model": False}
+
+
 def _extreme_cases():
     """extreme but legal shapes: a chain of 14 Computables, a Computable without any read, one reading every
     observable of three owners, an empty history tail, the same read repeated"""
@@ -464,6 +599,9 @@ def gen_cases(rng, tier):
         cases.append(_rand_case(rng, rng.randint(4, 30)))
     for _ in range(200 if tier == "quick" else 4000):
         cases.append(_het_case(rng))
+    cases += _lst_corner()
+    for i in range(60 if tier == "quick" else 1500):
+        cases.append(_lst_case(rng, inplace=(i % 3 == 0)))
     return cases
 
 
@@ -757,6 +895,8 @@ def _state_obs(env):
 
 
 def run_impl(case):
+    if case.get("lst"):
+        return _run_lst(case)
     import mesa.experimental.mesa_signals.mesa_signal as ms
     from mesa.experimental.mesa_signals.mesa_signal import Computable, Computed, HasObservables, Observable
 
@@ -1121,7 +1261,7 @@ def _act(a):
 
 
 def coq_case(case):
-    if case.get("het") or _is_big(case):
+    if case.get("het") or case.get("lst") or _is_big(case):
         # oracle-only history (values the Z-valued model cannot represent): never sent to the model; a replay file of
         # such a history asks for model observations all the same - give it the empty case
         return "{| c_init := []; c_comps := []; c_ops := [] |}"
@@ -1148,6 +1288,8 @@ def op_kinds(case):
 
 def nontrivial(case):
     obs = case.get("_obs", [])
+    if case.get("lst"):
+        return sum(1 for o in obs if o == [10]) >= 2 and any(o == [11] for o in obs)
     n = len(case["comps"])
     reads = [o for o in obs if o and o[0] == T_READ]
     if len(reads) < 2:
